@@ -214,3 +214,9 @@ package dns
 //@   opt no-safety
 //@   requires k != nil
 //@   callsite "toBase64" key: same(arg0, _K)
+
+// IsRRset refuses a set only when two records differ in type, class or owner name, and owner names are compared
+// as DNS names: letter case is not a difference (C10: verification is unaffected by the letter case of the owner)
+//@ func IsRRset [C10]
+//@   opt no-safety
+//@   assert at "return false@2" differ: curH.Rrtype != baseH.Rrtype || curH.Class != baseH.Class || !(len(curH.Name) == len(baseH.Name) && (forall k in 0..len(curH.Name) :: lower(curH.Name[k]) == lower(baseH.Name[k])))
